@@ -243,9 +243,12 @@ func EvalN(kind string, n int64) {
 func NonTrivial(kind string, key uint64) {
 	st.mu.Lock()
 	st.nontrivial++
-	if k := st.kinds[kind]; k != nil {
-		k.NonTrivial++
+	k := st.kinds[kind]
+	if k == nil {
+		k = &kindStats{}
+		st.kinds[kind] = k
 	}
+	k.NonTrivial++
 	if len(st.distinct) < maxDistinct {
 		st.distinct[key^Hash(kind)] = struct{}{}
 	} else {
